@@ -64,7 +64,7 @@ def luStrategyOf : SolveStrategy → Option Strategy
 (A invertible): `A * X = B`. -/
 theorem solve_lu_correct (ops : InvOps K) (hops : InvSpec ops) (inv : Nat → Mat K → Mat K) (gt : K → K → Bool)
     (ss : SolveStrategy) (s : Strategy) (hs : luStrategyOf ss = some s)
-    (n c : Nat) (A B : Mat K) (hdef : Fastor.C11.LUDefined ops gt s n A)
+    (n c : Nat) (A B : Mat K) (hdef : Fastor.LU.LUDefined ops gt s n A)
     (hd : ∀ i, i < n → (luPublicV ops gt s n A).U.get i i ≠ 0)
     (r j : Nat) (hr : r < n) (hj : j < c) :
     ∑ k ∈ range n, A.get r k * (solve ops inv gt ss n c A B).get k j = B.get r j := by
@@ -75,27 +75,27 @@ theorem solve_lu_correct (ops : InvOps K) (hops : InvSpec ops) (inv : Nat → Ma
   | blockLU =>
     have e : s = .block := by simpa [luStrategyOf] using hs.symm
     subst e
-    have h := Fastor.C11.lu_core_correct ops hops true n A (by simpa [Fastor.C11.LUDefined, Fastor.C11.blocked, Strategy.pivoted] using hdef)
+    have h := Fastor.C11.lu_core_correct ops hops true n A (by simpa [Fastor.LU.LUDefined, Fastor.LU.blocked, Strategy.pivoted] using hdef)
     simp only [solve]
     exact luSolve_solves n c A _ _ B id h hd r j hr hj
   | simpleLU =>
     have e : s = .simple := by simpa [luStrategyOf] using hs.symm
     subst e
-    have h := Fastor.C11.lu_core_correct ops hops false n A (by simpa [Fastor.C11.LUDefined, Fastor.C11.blocked, Strategy.pivoted] using hdef)
+    have h := Fastor.C11.lu_core_correct ops hops false n A (by simpa [Fastor.LU.LUDefined, Fastor.LU.blocked, Strategy.pivoted] using hdef)
     simp only [solve]
     exact luSolve_solves n c A _ _ B id h hd r j hr hj
   | blockLUPiv =>
     have e : s = .blockPiv := by simpa [luStrategyOf] using hs.symm
     subst e
     have h := Fastor.C11.lu_core_correct ops hops true n (applyPivotV n A (pivotPerm gt n A))
-      (by simpa [Fastor.C11.LUDefined, Fastor.C11.blocked, Strategy.pivoted] using hdef)
+      (by simpa [Fastor.LU.LUDefined, Fastor.LU.blocked, Strategy.pivoted] using hdef)
     simp only [solve]
     exact lu_solve_correct n c A _ _ B (pivotPerm gt n A) h hd pb.2.2.2 r j hr hj
   | simpleLUPiv =>
     have e : s = .simplePiv := by simpa [luStrategyOf] using hs.symm
     subst e
     have h := Fastor.C11.lu_core_correct ops hops false n (applyPivotV n A (pivotPerm gt n A))
-      (by simpa [Fastor.C11.LUDefined, Fastor.C11.blocked, Strategy.pivoted] using hdef)
+      (by simpa [Fastor.LU.LUDefined, Fastor.LU.blocked, Strategy.pivoted] using hdef)
     simp only [solve]
     exact lu_solve_correct n c A _ _ B (pivotPerm gt n A) h hd pb.2.2.2 r j hr hj
 
